@@ -775,8 +775,9 @@ class TFLiteSemantic:
         valid = True
 
         for ax in axis:
-            if ax < 0 or ax >= dims:
+            if ax < -dims or ax >= dims:
                 return False, "Axis parameter is out of bounds. axis: {axis}, dims: {dims}. "
+            ax += dims if ax < 0 else 0
 
             # Batch is only supported if batch shape is 1
             if dims == 4 and ax == 0:
